@@ -32,6 +32,12 @@ def kontOf : Json → Option Kont
     else if tag = S "arm" then some .arm
     else if tag = S "caughtOn" then some .caughtOn
     else none
+  | .arr [.str tag, v, x, .arr ys] =>
+    if tag = S "doneFail" then
+      match natOf v, errOf x, ys.mapM handledOf with
+      | some v, some e, some hs => some (.doneFail v e hs)
+      | _, _, _ => none
+    else none
   | .arr [.str tag, x, .arr ys] =>
     if tag = S "done" then
       match natOf x, ys.mapM boolOf with
@@ -114,6 +120,7 @@ def outJ : Out → Json
   | .orphan a i => .arr [t "orphan", n a, n i]
   | .unknown a => .arr [t "unknown", n a]
   | .refused => .arr [t "refused"]
+  | .joinFailed a e => .arr [t "joinFailed", n a, errJ e]
 
 def slotJ : Slot → Json
   | .pending => t "P"
